@@ -47,6 +47,13 @@ CHECKS["C16"] = dict(
   note="Trusts the harness reader and printer (cross-checked against each other). End-of-input reports, cascades after the first line, faults goyang does not report at all or reports without a position are counted, not judged. One open finding (cross-kind module field position) is listed in known_findings.json.",
   design="DESIGN.md section 4, C16")
 
+CHECKS["C03"] = dict(
+  category="exploration",
+  technique="rapid grammar-directed generation of statement trees (steered by a reflection-derived keyword table, then perturbed) with a reflection-walk mirror oracle against an independently parsed statement tree; native Go fuzzing in the thorough tier",
+  text="Statement trees rooted at module/submodule are grown along the keyword table that reflection reads from goyang's AST structs, perturbed (foreign/unknown/meta-name keywords, duplicated or removed children, prefixed extensions at every level, extra top-level statements), printed and given to Modules.Parse. The oracle is a function of the text alone: error or, if accepted, a one-to-one mirror of an independent yang.Parse of the same text (back-reference structurally the statement incl. position and subtree, name, parent link, field of the keyword, source order, extensions list, equal counts), pinned mandatory substatements present, only (sub)modules at top level, no panic. Sampling, not exhaustive: the space of trees is unbounded; the generator reaches every keyword and every perturbation class (counted).",
+  note="Trusts yang.Parse for the statement tree (decided separately by C02) and Go reflection. Acceptance of valid trees is not demanded.",
+  design="DESIGN.md section 4, C03")
+
 PENDING = {}
 
 def main():
